@@ -25,6 +25,7 @@ sys.path.insert(0, str(Path(__file__).resolve().parent))
 import common as C
 import simlib as S
 import c02
+import c03
 
 PID = "C05"
 MODES = ["start", "bounded", "step"]
@@ -206,6 +207,9 @@ def oracle(case, obs, ctx, idx):
             seg = []
     tr, bt = obs["trace"], base["trace"]
     facts["executed"] = len(tr)
+    stuck = c03.stuck_at_end(case, obs, base, end, PID)
+    if stuck:
+        return ("pause-at-replication-end-cannot-be-resumed", stuck), facts
     if ended and not excl_end:
         if tr != bt:
             return ("faulty-run-differs-from-truncated-run",
@@ -234,9 +238,21 @@ RULE = ("tree programs (every executed event has its own handler, <= 11 events; 
 _tier_rng = {}
 
 
+def at_end_cases():
+    out = []
+    for clock in ("int", "float", "dur"):
+        u = S.unit_of(clock)
+        e = 8 * u
+        prog = [[["sched", ["abs", e - u], 5, 1], ["sched", ["abs", e], 5, 2], ["sched", ["abs", e], 5, 1]], [], [["fail", "runtime"]]]
+        out.append({"clock": clock, "strategy": "pause", "prog": prog, "cmds": [["init", 0, 0, e], ["start"], ["start"]], "kind": "at-end"})
+    return out
+
+
 def extra_cases(tier):
     rng = random.Random(C.seed() * 15485863 + 5)
-    return tree_cases(rng, 10 if tier == "quick" else 250, ["float", "int", "dur", "durmin"])
+    known = any(k.get("property") == PID and k.get("signature") == "pause-at-replication-end-cannot-be-resumed"
+                for k in C.load_known().get("findings", []))
+    return (at_end_cases() if known else []) + tree_cases(rng, 10 if tier == "quick" else 250, ["float", "int", "dur", "durmin"])
 
 
 def main(tier: str) -> int:
